@@ -108,6 +108,9 @@ class Interp:
         self._alias = {}
         self._keep = []         # keeps records alive so that id()-based region names stay unique
         self.cur_obj = None
+        self.ctor_hooks = {}        # class-name prefix -> construction(it, f, st, args) -> record / pointer
+        self.delete_hooks = []      # called with (it, f, st, record) when an object is deleted
+        self.raii = {}              # class-name prefix -> (on construction(it, f, st, args) -> object, on scope exit(it, f, st, object))
         self.freed = set()
         self.heap = 0
         self.globals = {}
@@ -451,6 +454,9 @@ class Interp:
     def construct(self, f, st, env):
         cls = st.get('ctor') or ''
         args = [self.ev(f, a, env) for a in st.get('args', [])]
+        hk = next((k_ for k_ in self.ctor_hooks if cls.startswith(k_)), None)
+        if hk is not None:
+            return self.ctor_hooks[hk](self, f, st, args)       # a class of a library the harness models (std::thread)
         if cls not in self.prog.classes:
             if cls.startswith(('std::vector<', 'std::deque<', 'std::list<', 'std::queue<')):
                 out = list(args[0]) if args and isinstance(args[0], list) else []
@@ -735,13 +741,36 @@ class Interp:
             raise AnalysisBroken('%s: the replay does not terminate' % f.short)
         k = st['k']
         if k == 'CompoundStmt':
-            for c in st['ch']:
-                self.run(f, c, env)
+            if not self.raii:
+                for c in st['ch']:
+                    self.run(f, c, env)
+            else:
+                # scope-bound objects of the classes a harness has registered (locks): their destructor action runs on every way out of the block, in reverse order
+                stack = env.setdefault('__cleanup__', [])
+                stack.append([])
+                try:
+                    for c in st['ch']:
+                        self.run(f, c, env)
+                finally:
+                    for fn_ in reversed(stack.pop()):
+                        fn_()
         elif k == 'DeclStmt':
             for d in st['decls']:
                 if 'd' not in d:
                     continue            # a using-declaration, a typedef: nothing to hold
                 ct = d.get('ct') or d.get('t') or ''
+                if self.raii and 'init' in d:
+                    ini = f.s(d['init'])
+                    while ini is not None and ini['k'] in ('ExprWithCleanups', 'CXXBindTemporaryExpr', 'MaterializeTemporaryExpr') and ini.get('ch'):
+                        ini = f.s(ini['ch'][0])
+                    key = next((k_ for k_ in self.raii if ini is not None and ini['k'] == 'CXXConstructExpr' and (ini.get('ctor') or '').startswith(k_)), None)
+                    if key is not None:
+                        args_ = [self.ev(f, a, env) for a in ini.get('args', [])]
+                        obj = self.raii[key][0](self, f, ini, args_)
+                        env[d['d']] = obj
+                        if env.get('__cleanup__'):
+                            env['__cleanup__'][-1].append(lambda obj=obj, key=key, f=f, ini=ini: self.raii[key][1](self, f, ini, obj))
+                        continue
                 if d.get('vla') is not None and 'init' not in d:
                     n = self.ev(f, d['vla'], env)
                     if not isinstance(n, int) or n < 0 or n > (1 << 24):
@@ -1251,6 +1280,11 @@ class Interp:
                 self.mem[name] = ['uninit'] * n
                 return P(name, 0)
             cls = (st.get('cat') or st.get('at') or '')
+            hk = next((k_ for k_ in self.ctor_hooks if cls.startswith(k_)), None)
+            if hk is not None and st.get('ch'):
+                v = self.ev(f, st['ch'][-1], env)
+                if self.record_of(v) is not None:
+                    return v if isinstance(v, P) else self.ref(v)
             if cls in self.prog.classes:
                 if st.get('ch'):
                     v = self.ev(f, st['ch'][-1], env)       # new T{...} / new T(args): the initialiser builds the object
@@ -1266,6 +1300,9 @@ class Interp:
                 return None
             if not isinstance(v, P) or v.r not in self.mem:
                 raise AnalysisBroken('%s: delete of a pointer the replay does not hold (%s)' % (f.short, f.loc(e)))
+            for dh in self.delete_hooks:
+                if isinstance(self.mem.get(v.r), dict):
+                    dh(self, f, st, self.mem[v.r])
             if v.r in self.freed:
                 self.fault(f, st, '%s is deleted twice' % v.r)
             elif v.o != 0:
